@@ -16,6 +16,7 @@ The python oracle below re-computes the check-point values independently of the 
 run (exit 2) when the two disagree.
 """
 import hashlib, os, random, re, json
+import vfcore
 
 M64 = (1 << 64) - 1
 R, W, RW = 0, 1, 2
@@ -118,7 +119,7 @@ def _exec_rank(s, t):
     return s.tiles[t['params'][-1 - t['place']][0]][2] % s.world
 
 
-def gen(seed, world=1, profile='c03', ntasks=None, rep_pct=0, nested=False, dont_track=False, ntp=1, rounds=None, new_tiles=None, max_np=3):
+def gen(seed, world=1, profile='c03', ntasks=None, rep_pct=0, nested=False, dont_track=False, ntp=1, rounds=None, new_tiles=None, max_np=3, read_pct=None):
     """Seeded random script.  profile: 'c03' mixed modes with many alternations; 'c04' long reader groups then a writer on
     few tiles with sleeping readers; 'c17' remote last writers, partial flushes, several rounds."""
     rng = random.Random(seed * 1000003 + {'c03': 1, 'c04': 2, 'c17': 3}[profile])
@@ -136,7 +137,7 @@ def gen(seed, world=1, profile='c03', ntasks=None, rep_pct=0, nested=False, dont
         tp = rng.randrange(ntp); g = s.add_tile(tp, 1, rng.randrange(world)); per_tp[tp].append(g); newt.append(g)
     nstate = {g: 'fresh' for g in newt}        # fresh -> live -> dead
     if rounds is None: rounds = rng.choice([1, 1, 2, 3]) if profile != 'c04' else rng.choice([1, 2])
-    s.feat = dict(profile=profile, world=world, ntp=ntp, rounds=rounds, rep_pct=rep_pct, nested=nested, dont_track=dont_track)
+    s.feat = dict(profile=profile, world=world, ntp=ntp, rounds=rounds, rep_pct=rep_pct, nested=nested, dont_track=dont_track, read_pct=read_pct)
     rounds_extra = []
     left = ntasks
 
@@ -146,6 +147,8 @@ def gen(seed, world=1, profile='c03', ntasks=None, rep_pct=0, nested=False, dont
     def pick_mode(g, bias_read):
         if nstate.get(g) == 'fresh': return W
         if bias_read: return R
+        if read_pct is not None:
+            return R if rng.randrange(100) < read_pct else rng.choice([W, RW, RW])
         return rng.choice([R, R, W, RW, RW]) if profile != 'c17' else rng.choice([R, W, RW, RW])
 
     def make_task(tp, pool, bias_read=False, sleep=0, allow_rep=True, np_=None):
@@ -276,7 +279,7 @@ def gen_pattern(modes, world=1, sleep_first=0):
 
 
 def pattern_class(modes):
-    return '(W|RW,*)' if modes[0] != R else '(' + ','.join(MNAME[m] for m in modes) + ')'
+    return '(W|RW,*)' if modes[0] != R else '(R,*)'
 
 
 # ------------------------------------------------------------------------------------------------ running
@@ -305,17 +308,16 @@ def cfg_str(cfg):
     return ' '.join('%s=%s' % (k, cfg[k]) for k in sorted(cfg))
 
 
-def stall_class(bt):
-    """Stable key for a DTD stall from the gdb backtraces of all ranks."""
-    fr = []
-    for name in ('made_sure_nextinline_is_null', 'release_ownership_of_data', 'parsec_dtd_last_user_lock', 'parsec_insert_dtd_task',
-                 'parsec_insert_dtd_flush_task', 'parsec_execute_and_come_back', 'parsec_taskpool_wait', 'parsec_context_wait'):
-        if re.search(r'\b%s\b' % name, bt or ''): fr.append(name)
-    if 'made_sure_nextinline_is_null' in fr or 'release_ownership_of_data' in fr:
-        spin = 'made_sure_nextinline_is_null' if 'made_sure_nextinline_is_null' in fr else 'release_ownership_of_data'
-        return 'dtd:stall:%s+last_user_lock' % spin if ('parsec_insert_dtd_task' in fr or 'parsec_insert_dtd_flush_task' in fr) else 'dtd:stall:%s' % spin
-    if 'parsec_execute_and_come_back' in fr: return 'dtd:stall:window-blocked-inserter'
-    if 'parsec_taskpool_wait' in fr or 'parsec_context_wait' in fr: return 'dtd:stall:wait-never-returns'
+def stall_class(bt, stuck=()):
+    """Stable key for a DTD stall from the gdb backtraces of all ranks and the harness's own stuck reports."""
+    bt = bt or ''
+    has = lambda name: re.search(r'\b%s\b' % name, bt) is not None
+    if has('made_sure_nextinline_is_null'): return 'dtd:stall:made_sure_nextinline_is_null'
+    if has('release_ownership_of_data'): return 'dtd:stall:release_ownership_of_data'
+    if any(o.get('retrying_prepare_input') for o in stuck): return 'dtd:stall:writer-again-livelock'
+    if has('parsec_execute_and_come_back') and has('body_common'): return 'dtd:stall:inserting-task-blocked-by-window'
+    if has('parsec_execute_and_come_back'): return 'dtd:stall:window-blocked-inserter'
+    if has('parsec_taskpool_wait') or has('parsec_context_wait'): return 'dtd:stall:wait-never-returns'
     return 'dtd:stall:unknown'
 
 
@@ -330,6 +332,10 @@ def judge(ctx, prop, r, txt, what, feature=None):
         else:
             keep.append(o)
     r.objs = keep
+    # a failed assert shows up as an ASan "ABRT" report (handle_abort=1): key it by the assertion, not by ASan's frames
+    if any('AddressSanitizer: ABRT' in b for b in r.san) and (vfcore.assert_key(r.stderr) or vfcore.assert_key(r.stdout)):
+        r.san = [b for b in r.san if 'AddressSanitizer: ABRT' not in b]
+        if r.rc in (0, 1) and r.signal is None: r.signal = 6
     st = ctx.absorb(r, what, feature, files={'script.txt': txt})
     if foreign:
         ctx.add_cov('foreign_oracle_hits', len(foreign))
@@ -337,6 +343,84 @@ def judge(ctx, prop, r, txt, what, feature=None):
         print('NOTE %s: oracle(s) of another E2 property fired in this run (%s): %s — see the check of that property' % (prop, what, ', '.join(ks)[:300]))
         if st == 'ok': st = 'foreign'
     return st, r.summary()
+
+
+class Campaign:
+    """Runs (script, cfg) cases for one property, applies the E2 stall rule, routes verdicts, accumulates evidence."""
+
+    def __init__(self, ctx, prop, flavour='asan'):
+        self.ctx = ctx; self.prop = prop; self.flavour = flavour
+        self.exe = ctx.harness('c03_dtd', flavour)
+        self.n = 0
+        self.sums = []          # (script, cfg, summary) of judged cases
+
+    def _one(self, job):
+        ctx = self.ctx
+        s, cfg = job['script'], job['cfg']
+        self.n += 1
+        tag = '%s%04d' % (job.get('kind', 'c'), job['idx'])
+        ranks = cfg.get('ranks', 1)
+        to = job.get('timeout', 900); stall = job.get('stall_s', 60 if ranks == 1 else 90)
+        attempt = [0]
+
+        def runner():
+            attempt[0] += 1
+            return run_script(ctx, self.exe, s, cfg, '%s_%d' % (tag, attempt[0]), timeout=to, stall_s=stall)[0]
+        txt = s.text()
+        what = '%s[%s] %s' % (job.get('kind', 'script'), s.digest(), cfg_str(cfg))
+        m = s.measures()
+        feature = 'same-tile-in-task' if m['repeated_tile_tasks'] else None
+        r = runner()
+        if r.stalled:
+            r2 = runner()
+            if r2.stalled:
+                cls = stall_class(r2.backtraces or r.backtraces, r2.of('stuck') + r.of('stuck'))
+                if feature: cls = cls.replace('dtd:stall', 'stall')
+                key = (feature + ':' if feature else '') + (job.get('stall_key') or cls)
+                v = ctx.violation(key, '%s made no progress twice (no task executed during the stall window); blocked frames class: %s; %s' % (what, cls, _stuck_lines(r2)), r2, {'script.txt': txt})
+                job['status'] = 'violation' if v else 'known'; job['result'] = r2
+                return job
+            ctx.inconclusive_case('%s stalled once (not reproduced)' % what)
+            r = r2
+        if r.timed_out:
+            ctx.inconclusive_case('%s hit the overall time-out (start-up or tear-down slow; not a verdict)' % what)
+            job['status'] = 'inconclusive'; job['result'] = r
+            return job
+        st, summ = judge(ctx, self.prop, r, txt, what, feature)
+        job['status'] = st; job['result'] = r; job['summary'] = summ
+        return job
+
+    def run(self, jobs, width):
+        """jobs: list of dict(script, cfg, kind).  width: max CPU threads used at once."""
+        for i, j in enumerate(jobs): j['idx'] = i
+        # farm out: group by cost so that at most `width` threads are busy
+        cheap = [j for j in jobs if j['cfg'].get('ranks', 1) * j['cfg'].get('cores', 4) <= 4]
+        heavy = [j for j in jobs if j not in cheap]
+        out = self.ctx.pmap(self._one, cheap, jobs=max(1, width // 4))
+        out += self.ctx.pmap(self._one, heavy, jobs=max(1, width // 12))
+        return out
+
+
+def _stuck_lines(r):
+    o = [json.dumps(x) for x in r.of('stuck')][-3:]
+    return 'last stuck reports: ' + ' '.join(o) if o else ''
+
+
+def pick_cfg(rng, ranks=1, thorough=False, nested=False):
+    """One configuration: threads, scheduler, window/threshold, start mode, yield injection."""
+    cores = rng.choice([1, 2, 4, 4, 8, 16]) if ranks == 1 else rng.choice([1, 2, 2, 4])
+    cfg = dict(ranks=ranks, cores=cores, sched=rng.choice(SCHEDS))
+    w = rng.choice([None, None, 1, 2, 8]); t = rng.choice([None, None, 1, 2])
+    if w: cfg['window'] = w
+    if t: cfg['threshold'] = t
+    if not w and ranks == 1 and rng.randrange(4) == 0: cfg['late'] = 1     # insert everything of the first round before context_start
+    if cores == 1 and cfg['sched'] in ('ip', 'll', 'llp'):
+        cfg['sched'] = rng.choice(['lfq', 'ap', 'gd', 'pbq', 'spq'])      # known finding dtd:stall:writer-again-livelock: kept as a separate low-weight probe
+    if nested:
+        cfg.pop('window', None); cfg.pop('threshold', None)               # known finding dtd:stall:inserting-task-blocked-by-window: separate probe
+    y = rng.choice([0, 0, 100, 300])
+    if y: cfg.update({'yield': y, 'yield_us': rng.choice([0, 20, 100]), 'yseed': rng.randrange(1 << 20)})
+    return cfg
 
 
 def stalled_twice(ctx, prop, runner, what, txt, key_fn):
